@@ -497,3 +497,21 @@ def r14_split_or_guard(text, log):
         new = '\n'.join('%s%s if %s => %s' % (indent, p_, guard, body) for p_ in plist)
         log.append(dict(rule='R14', before=norm_ws(text[mm.start():ob + 1]), after=norm_ws(' / '.join('%s if %s => {' % (p_, guard) for p_ in plist))))
         text = text[:mm.start()] + new + text[cb + 1:]
+
+
+_R15 = re.compile(r"(?<![A-Za-z0-9_\.])((?:self\.)?[a-z_][a-z0-9_]*(?:\.[a-z_][a-z0-9_]*)*)\s*\.iter\(\)\s*\.(position|any|all)\(")
+
+
+def r15_iter_wrappers(text, log):
+    """R15: `RECV.iter().position(` / `.any(` / `.all(` on a Vec (RECV a plain path) -> `it_position(&RECV, ` etc.: the
+    wrappers of units/common/iter_wrappers.rs, whose bodies are the original expressions (provided Iterator methods cannot
+    be given a Verus specification)."""
+    mask = code_mask(text)
+
+    def repl(mm):
+        if mask[mm.start()] != CODE:
+            return mm.group(0)
+        new = 'it_%s(&%s, ' % (mm.group(2), mm.group(1))
+        log.append(dict(rule='R15', before=norm_ws(mm.group(0)), after=new))
+        return new
+    return _R15.sub(repl, text)
